@@ -258,6 +258,14 @@ func expandBytes(seed uint64, n int) Bytes {
 		seed = 0x9e3779b97f4a7c15
 	}
 	out := make(Bytes, n)
+	if seed%4 == 1 {
+		// a quarter of the long strings are highly compressible: one letter repeated
+		c := byte('b' + (seed>>8)%24)
+		for i := range out {
+			out[i] = c
+		}
+		return out
+	}
 	x := seed
 	for i := range out {
 		x ^= x << 13
